@@ -275,7 +275,10 @@ func (i *dbIter) prev() bool {
 			}
 		}
 	}
-	if del {
+	// The backward scan may have stopped because of an iterator error rather
+	// than at the start of the data. Newer entries of the candidate key may
+	// then be unseen, so the candidate must not be presented as valid.
+	if del || i.iter.Error() != nil {
 		i.dir = dirSOI
 		i.iterErr()
 		return false
